@@ -72,11 +72,16 @@ class C03(Prop):
                     body += 1
                     req = self._rand_caps(rng)
                     cp = self._rand_caps(rng) if rng.random() < 0.4 else None
-                    lines.append(f"reg {name} {body} {caps_str(req)} {caps_str(cp)} {1 if rng.random() < 0.2 else 0}")
+                    style = rng.choice("aabbc")
+                    if style == "c":
+                        cp = None            # SimpleTool / register_function only has required_capabilities
+                    lines.append(f"reg {name} {body} {caps_str(req)} {caps_str(cp)} {1 if rng.random() < 0.2 else 0} {style}")
                 elif r < 0.55:
                     mode = rng.choice(["forced-oxid", "forced-oxid", "auto", "auto", "forced-other", "long", "ros"])
                     callee = rng.choice([f"name:{name}"] * 6 + ["notname", "notcall"])
                     lines.append(f"met {mode} {callee} {1 if rng.random() < 0.8 else 0} other")
+                elif r < 0.62:
+                    lines.append("schemas")
                 elif r < 0.8:
                     lines.append(f"call {name}")
                 else:
@@ -85,7 +90,7 @@ class C03(Prop):
                     for _ in range(rng.randint(0, 5)):
                         rounds.append([rng.choice(NAMES + ["ghost"]) for _ in range(rng.randint(0, 3))])
                     rs = ";".join(",".join(r_) if r_ else "-" for r_ in rounds) or "."
-                    lines.append(f"loop {k} {1 if rng.random() < 0.9 else 0} {rs}")
+                    lines.append(f"loop {k} {1 if rng.random() < 0.9 else 0} {rng.choice(['uniq', 'same', 'byname'])} {rs}")
             yield {"lines": lines, "note": "random"}
 
     def exhaustive(self, tier):
@@ -118,13 +123,25 @@ class C03(Prop):
                                            f"reg w 2 {caps_str(ok_req)} none 0", e2,
                                            f"reg w 3 {caps_str(bad_req)} none 0", e1],
                                  "note": "exhaustive re-registration history"})
+        # tool-object styles x schema export before use; duplicate call ids inside one provider turn
+        styl = []
+        for al in ([], [0]):
+            bad = [2]
+            for style in "abc":
+                for pre in ([], ["schemas"], ["schemas", "schemas"]):
+                    for e in entries + ["loop 2 1 same w,f;f,w", "loop 2 1 same f,w", "loop 1 1 byname w,f,w"]:
+                        styl.append({"lines": [f"cfg {caps_str(al)}", f"reg w 1 {caps_str(bad)} none 0 {style}",
+                                               f"reg f 2 {caps_str(al[:1])} none 0 {style}"] + pre + [e],
+                                     "note": "exhaustive tool style x schema export x entry"})
         return [{"name": "re-registration histories: allowed/used/re-registered outside the ceiling x entry-point pairs",
                  "cases": hist},
+                {"name": "tool-object styles (with/without parameters_schema, SimpleTool) x schema export x entry points incl. duplicate call ids",
+                 "cases": styl},
                 {"name": f"ceilings x declared capability sets (subsets of 3 caps, size <= {size}) x attribute style x entry point",
                  "cases": cases}]
 
     # --- implementation -----------------------------------------------------------------------------------
-    def _mk_tool(self, name, body, req, caps, raises, counter):
+    def _mk_tool(self, name, body, req, caps, raises, counter, style="a"):
         def fn(*a, **k):
             counter.append(body)
             if raises:
@@ -138,7 +155,19 @@ class C03(Prop):
 
             def execute(self, *a, **k):
                 return fn(*a, **k)
-        t = T()
+        if style == "c" and caps is None:
+            # the library's own SimpleTool (what register_function builds)
+            return self.mm.SimpleTool(name=name, description="t", func=fn,
+                                      required_capabilities=set() if req is None else {C[i] for i in req})
+        if style == "b":
+            class B:                     # bare Tool-protocol object: no parameters_schema attribute
+                description = "t"
+
+                def execute(self, *a, **k):
+                    return fn(*a, **k)
+            t = B()
+        else:
+            t = T()
         t.name = name
         if req is not None:
             t.required_capabilities = {C[i] for i in req}
@@ -154,6 +183,7 @@ class C03(Prop):
         decl = {}          # body id -> (req, caps)
         allowed = None
         reg = {}           # name -> body id
+        raising = {}       # body id -> raises
         info = []          # per line: bodies executed during that line
 
         def new(al):
@@ -164,6 +194,7 @@ class C03(Prop):
             counter.clear()
             decl.clear()
             reg.clear()
+            raising.clear()
 
         def ros():
             return int(round(mito._ros_accumulated * 10))
@@ -179,10 +210,21 @@ class C03(Prop):
                 obs.append("bad-op") if t[0] not in ("reg", "met", "call", "loop") else None
             if t[0] == "reg":
                 body, req, caps, raises = int(t[2]), parse_caps(t[3]), parse_caps(t[4]), t[5] == "1"
+                style = t[6] if len(t) > 6 else "a"
+                if style == "c" and caps is not None:
+                    style = "a"
                 decl[body] = (req, caps)
                 reg[t[1]] = body
-                mito.engulf_tool(self._mk_tool(t[1], body, req, caps, raises, counter))
+                raising[body] = raises
+                mito.engulf_tool(self._mk_tool(t[1], body, req, caps, raises, counter, style))
                 obs.append("ok")
+            elif t[0] == "schemas":
+                try:
+                    mito.export_tool_schemas()
+                    mito.list_tools()
+                    obs.append("ok")
+                except Exception as e:
+                    obs.append(f"raise:{type(e).__name__}")
             elif t[0] == "met":
                 mode, callee, args_ok = t[1], t[2], t[3] == "1"
                 args = "1, x=2" if args_ok else "undefined_name_zz"
@@ -240,8 +282,9 @@ class C03(Prop):
                 obs.append(f"{res} [{','.join(map(str, counter))}]")
             elif t[0] == "loop":
                 k, auto = int(t[1]), t[2] == "1"
-                rounds = [] if t[3] == "." else [([] if r == "-" else r.split(",")) for r in t[3].split(";")]
-                results = []
+                idmode, rtxt = (t[3], t[4]) if len(t) > 4 else ("uniq", t[3])
+                rounds = [] if rtxt == "." else [([] if r == "-" else r.split(",")) for r in rtxt.split(";")]
+                served = []      # rounds actually handed out by the provider (non-empty ones)
 
                 class Prov:
                     name = "scripted"
@@ -258,26 +301,37 @@ class C03(Prop):
                     def complete_with_tools(s, prompt, tools=None, config=None):
                         rd = rounds[s.i] if s.i < len(rounds) else []
                         s.i += 1
-                        calls = [pp.ToolCall(id=f"c{j}", name=nm, arguments={}) for j, nm in enumerate(rd)]
+                        ident = (lambda j, nm: f"c{j}") if idmode == "uniq" else \
+                            (lambda j, nm: "c") if idmode == "same" else (lambda j, nm: f"id-{nm}")
+                        calls = [pp.ToolCall(id=ident(j, nm), name=nm, arguments={}) for j, nm in enumerate(rd)]
                         if calls:
-                            results.append([])
+                            served.append((list(rd), len(counter)))
                         return pp.LLMResponse(content="r", model="m", tokens_used=1, latency_ms=0.0), calls
                 nuc = nn.Nucleus(provider=Prov())
-                orig = mito.execute_tool_call
-
-                def rec(call, _o=orig):
-                    c0 = len(counter)
-                    r = _o(call)
-                    results[-1].append("ok" if r.success else ("failx" if len(counter) > c0 else "fail"))
-                    return r
-                mito.execute_tool_call = rec
                 try:
                     nuc.transcribe_with_tools("p", mito, max_iterations=k, auto_execute=auto)
-                    shown = "[" + ",".join("[" + ",".join(r) + "]" for r in results if r) + "]"
+                    # per-call outcome = did the registered body run, and did it return: read off the execution log
+                    shown_rounds = []
+                    for ri, (rd, c0) in enumerate(served):
+                        c1 = served[ri + 1][1] if ri + 1 < len(served) else len(counter)
+                        ran = list(counter[c0:c1])
+                        if not auto:
+                            continue
+                        outs = []
+                        for nm in rd:
+                            b = reg.get(nm)
+                            if b is not None and ran and ran[0] == b:
+                                ran.pop(0)
+                                outs.append("failx" if raising.get(b) else "ok")
+                            else:
+                                outs.append("fail")
+                        if ran:
+                            outs.append("extra:" + ".".join(map(str, ran)))
+                        shown_rounds.append("[" + ",".join(outs) + "]")
+                    # a round handed out after the budget was exhausted is not executed: drop trailing unexecuted rounds
+                    shown = "[" + ",".join(shown_rounds) + "]"
                 except Exception as e:
                     shown = f"raise:{type(e).__name__}"
-                finally:
-                    del mito.execute_tool_call
                 obs.append(f"{shown} [{','.join(map(str, counter))}]")
             elif t[0] != "cfg":
                 obs.append("bad-op")
